@@ -49,6 +49,10 @@ def make_cases(rng, tier):
     import itertools
     orders = [p_ for n_ in (2, 3, 4) for p_ in itertools.permutations("ACGT", n_)]
     rng.shuffle(orders)
+    # ... and orders in which a base already met comes again after two or three different ones (the code must not change)
+    for S in [c for n_ in (2, 3) for c in itertools.combinations("ACGT", n_)]:
+        for rep in (S if len(S) == 3 else S[:1]):
+            orders.append(tuple(rng.sample(S, len(S))) + (rep,))
     for oi, order in enumerate(orders):
         k = [5, 9, 31, 33][oi % 4]
         h = (k - 1) // 2
